@@ -233,56 +233,90 @@ def magic_ob(kind):
               oracle="returns 7-tuple or raises ImportError (concrete enumeration; auxiliary)")
 
 
-def resource_ob(magic, tcode):
-    """adversarial length fields: concrete resource probes (monitored, not proved)"""
-    def q():
-        import tracemalloc
-        import xdis.load as LD
-        import xdis.magics as M
-        bad = None
-        n = 0
-        devnull = open(os.devnull, "w")
-        saved = sys.stdout, sys.stderr
-        sys.stdout = sys.stderr = devnull
+LIMIT_S = 10.0
+LIMIT_BYTES = 32 * 1024 * 1024
+
+
+def _probe(data):
+    """load `data` in a forked child under a hard wall-clock limit; returns (finished, peak_bytes, seconds)"""
+    import pickle
+    import signal
+    r_fd, w_fd = os.pipe()
+    pid = os.fork()
+    if pid == 0:
+        os.close(r_fd)
+        out = (0, 0.0)
         try:
-            for ln in (0x7fffffff, 0x04000004, 0x00ffffff, 0x7f000004, 0xffffffff):
-                data = M.int2magic(magic) + b"\0" * HDR[magic] + bytes([tcode]) + ln.to_bytes(4, "little") + b"N" * 8
-                tracemalloc.start()
-                t0 = time.time()
-                try:
-                    LD.load_module_from_file_object(io.BytesIO(data), filename="hostile.pyc", code_objects={})
-                except BaseException:
-                    pass
-                dt = time.time() - t0
-                _cur, peak = tracemalloc.get_traced_memory()
-                tracemalloc.stop()
-                n += 1
-                if (peak > 32 * 1024 * 1024 or dt > 5.0) and bad is None:
-                    bad = {"data": data, "peak": peak, "secs": round(dt, 2)}
+            import tracemalloc
+            import xdis.load as LD
+            devnull = open(os.devnull, "w")
+            sys.stdout = sys.stderr = devnull
+            tracemalloc.start()
+            t0 = time.time()
+            try:
+                LD.load_module_from_file_object(io.BytesIO(data), filename="hostile.pyc", code_objects={})
+            except BaseException:
+                pass
+            dt = time.time() - t0
+            _cur, peak = tracemalloc.get_traced_memory()
+            out = (peak, dt)
         finally:
-            sys.stdout, sys.stderr = saved
-            devnull.close()
-        return ("refuted" if bad else "confirmed"), "probes=%d" % n, ({"data": bad["data"]} if bad else None), 0, 0.0
+            try:
+                with os.fdopen(w_fd, "wb") as f:
+                    pickle.dump(out, f)
+            finally:
+                os._exit(0)
+    os.close(w_fd)
+    t0 = time.time()
+    done = False
+    while time.time() - t0 < LIMIT_S + 2.0:
+        p, _st = os.waitpid(pid, os.WNOHANG)
+        if p == pid:
+            done = True
+            break
+        time.sleep(0.02)
+    if not done:
+        os.kill(pid, signal.SIGKILL)
+        os.waitpid(pid, 0)
+        os.close(r_fd)
+        return False, 0, time.time() - t0
+    with os.fdopen(r_fd, "rb") as f:
+        raw = f.read()
+    peak, dt = pickle.loads(raw) if raw else (0, 0.0)
+    return True, peak, dt
+
+
+def _probe_verdict(data):
+    finished, peak, dt = _probe(data)
+    if not finished:
+        return "loading the %d-byte file %r did not finish within %.0f s (killed)" % (len(data), data[:40], LIMIT_S)
+    if peak > LIMIT_BYTES or dt > LIMIT_S / 2:
+        return "loading the %d-byte file %r allocated %d bytes / took %.1f s" % (len(data), data[:40], peak, dt)
+    return None
+
+
+def resource_ob(magic, tcode):
+    """adversarial length fields: concrete resource probes, each in its own process under a hard time limit (monitored, not proved)"""
+    def files():
+        import xdis.magics as M
+        for ln in (0x7fffffff, 0x04000004, 0x00ffffff, 0x7f000004, 0xffffffff):
+            yield M.int2magic(magic) + b"\0" * HDR[magic] + bytes([tcode]) + ln.to_bytes(4, "little") + b"N" * 8
+
+    def q():
+        n = 0
+        for data in files():
+            n += 1
+            v = _probe_verdict(data)
+            if v is not None:
+                return "refuted", v[:300], {"data": data}, 0, 0.0
+        return "confirmed", "probes=%d" % n, None, 0, 0.0
 
     def replay(data):
-        import tracemalloc
-        import xdis.load as LD
-        tracemalloc.start()
-        t0 = time.time()
-        try:
-            LD.load_module_from_file_object(io.BytesIO(data), filename="hostile.pyc", code_objects={})
-        except BaseException:
-            pass
-        dt = time.time() - t0
-        _c, peak = tracemalloc.get_traced_memory()
-        tracemalloc.stop()
-        if peak > 32 * 1024 * 1024 or dt > 5.0:
-            return "loading the %d-byte file %r allocated %d bytes / took %.1fs" % (len(data), data, peak, dt)
-        return None
+        return _probe_verdict(data)
 
     return Ob(id="C11.resource.m%d.t%02x" % (magic, tcode), prop="C11", params=[], body=None, direct=q, replay=replay,
               funcs=FUNCS, region="resource-%s" % chr(tcode), skeleton="adversarial length field after type code %r" % chr(tcode),
-              bound="5 boundary length values", timeout=120, oracle="peak < 32 MiB and < 5 s (monitor)")
+              bound="5 boundary length values", timeout=120, oracle="finishes within %.0f s, peak < 32 MiB (monitor, separate process)" % LIMIT_S)
 
 
 def depth_ob(magic):
